@@ -616,3 +616,152 @@ class SourceFile:
         if len(found) <= nth:
             raise KeyError('%s: item %r not found (found %d)' % (self.path, path, len(found)))
         return found[nth]
+
+
+_NOT_BINDING = {'mut', 'ref', 'self', 'Self', 'true', 'false', 'box', 'if', 'else', 'let', 'in', 'move', 'dyn', 'impl', 'as', 'crate', 'super'}
+
+
+def _pattern_idents(toks: List[Tok], a: int, b: int) -> List[str]:
+    """Identifiers bound by the pattern toks[a:b]: lower-case identifiers that are not path segments, constructors or field names."""
+    out = []
+    for k in range(a, b):
+        t = toks[k]
+        if t.kind != 'ident' or t.text in _NOT_BINDING or not (t.text[0].islower() or t.text[0] == '_'):
+            continue
+        nxt = toks[k + 1].text if k + 1 < len(toks) else ''
+        prv = toks[k - 1].text if k > 0 else ''
+        if nxt in ('::', '(', '{', '!') or prv == '::':
+            continue
+        if nxt == ':' and k + 1 < b:          # `Struct { field: binding }`: the field name is not a binding
+            continue
+        if t.text == '_':
+            out.append('_')
+            continue
+        out.append(t.text)
+    return out
+
+
+def binding_names(fn_text: str) -> List[str]:
+    """The names a function binds, in source order: parameters, `let` / `if let` / `while let` patterns, `for` patterns, closure
+    parameters.  (Match-arm bindings are not collected.)  Used to recognise a pure renaming of locals (rule R28)."""
+    try:
+        toks = lex(fn_text)
+    except LexError:
+        return []
+    n = len(toks)
+    names: List[Tuple[int, str]] = []
+    # parameters
+    i = 0
+    while i < n and not (toks[i].kind == 'ident' and toks[i].text == 'fn'):
+        i += 1
+    while i < n and toks[i].text != '(':
+        i += 1
+    if i < n:
+        close = match_close(toks, i)
+        k = i + 1
+        start = k
+        depth = 0
+        while k <= close:
+            t = toks[k]
+            if t.kind == 'punct' and t.text in ('(', '[', '{', '<'):
+                depth += 1
+            elif t.kind == 'punct' and t.text in (')', ']', '}', '>') and k != close:
+                depth -= 1
+            if (t.text == ',' and depth == 0) or k == close:
+                # parameter start..k: the pattern is what precedes the first top-level ':'
+                c = start
+                d2 = 0
+                while c < k and not (toks[c].text == ':' and d2 == 0):
+                    if toks[c].text in ('(', '['):
+                        d2 += 1
+                    elif toks[c].text in (')', ']'):
+                        d2 -= 1
+                    c += 1
+                for nm in _pattern_idents(toks, start, c):
+                    names.append((start, nm))
+                start = k + 1
+            k += 1
+        body_lo = close + 1
+    else:
+        body_lo = 0
+    closures = {c.bar_tok: c for c in find_closures(toks, body_lo, n)}
+    k = body_lo
+    while k < n:
+        t = toks[k]
+        if t.kind == 'ident' and t.text == 'let':
+            e = k + 1
+            d = 0
+            while e < n:
+                x = toks[e]
+                if x.kind == 'punct':
+                    if x.text in OPEN:
+                        d += 1
+                    elif x.text in CLOSE:
+                        if d == 0:
+                            break
+                        d -= 1
+                    elif d == 0 and x.text in ('=', ';'):
+                        break
+                    elif d == 0 and x.text == ':' :
+                        break
+                e += 1
+            for nm in _pattern_idents(toks, k + 1, e):
+                names.append((k, nm))
+        elif t.kind == 'ident' and t.text == 'for' and k + 1 < n and toks[k + 1].text != '<':
+            e = k + 1
+            d = 0
+            while e < n and not (toks[e].kind == 'ident' and toks[e].text == 'in' and d == 0):
+                if toks[e].text in OPEN:
+                    d += 1
+                elif toks[e].text in CLOSE:
+                    d -= 1
+                e += 1
+            for nm in _pattern_idents(toks, k + 1, e):
+                names.append((k, nm))
+        elif k in closures and t.text == '|':
+            c = closures[k]
+            start = k + 1
+            d = 0
+            for q in range(k + 1, c.params_end_tok + 1):
+                x = toks[q]
+                if x.text in ('(', '[', '<'):
+                    d += 1
+                elif x.text in (')', ']', '>'):
+                    d -= 1
+                if (x.text == ',' and d == 0) or q == c.params_end_tok:
+                    cc = start
+                    d2 = 0
+                    while cc < q and not (toks[cc].text == ':' and d2 == 0):
+                        if toks[cc].text in ('(', '['):
+                            d2 += 1
+                        elif toks[cc].text in (')', ']'):
+                            d2 -= 1
+                        cc += 1
+                    for nm in _pattern_idents(toks, start, cc):
+                        names.append((start, nm))
+                    start = q + 1
+        k += 1
+    names.sort(key=lambda p: p[0])
+    return [nm for (_, nm) in names]
+
+
+def renaming(old: List[str], new: List[str]) -> dict:
+    """{old name: new name} when `new` is `old` with some bindings consistently renamed (same number of bindings, in the same order);
+    {} otherwise.  A name that still exists is never mapped (a reordering is not a renaming)."""
+    if len(old) != len(new) or old == new:
+        return {}
+    m = {}
+    for a, b in zip(old, new):
+        if a == b:
+            continue
+        if a == '_' or b == '_':
+            continue
+        if m.get(a, b) != b:
+            return {}
+        m[a] = b
+    old_set, new_set = set(old), set(new)
+    for a, b in m.items():
+        if a in new_set or b in old_set:
+            return {}
+    # positions that kept their name must not use a mapped name
+    return m
